@@ -10,7 +10,8 @@ RULE = ("fix_whitespace: corpus of edge texts + blank-line/indentation layouts f
         "backslashes, \\r \\f \\x1c) x widths 1..80 x indents 0..16 x offsets with offset < width, + every (text, width, offset, indent) the templates pass "
         "to the wrap/rst filters during those generations; textwrap contract and Metadata.doc on grammar texts; the character classes exhaustively over 0..127. "
         "End to end: a one-service API with a comment on every kind of element (message, field, enum, enum value, service, method), benign comments and one "
-        "hazardous comment at a time (triple quotes, trailing backslash, backslash escapes, final quotes). "
+        "hazardous comment at a time (triple quotes, trailing backslash, backslash escapes, final quotes); and the same API with every element documented "
+        "only by a detached comment / only by a trailing one / by leading+trailing / leading+detached / two detached / trailing+detached (comment placement). "
         "A case is one input (text, or text+parameters, or comment set); distinct = distinct canonical JSON; non-trivial = non-blank text / changed by the "
         "implementation / at least one comment.")
 TRUSTED = [
@@ -88,9 +89,9 @@ def rst_cases(prefix, n):
 
 
 def run_pure(ctx):
-    checks, _ = FW.run_cases(ctx, [("corpus", t) for t in FW.CORPUS] + fixws_cases("C20-fw", ctx.n(300, 6000), ctx.n(200, 4000), ctx.n(100, 1500)))
+    checks, _ = FW.run_cases(ctx, [("corpus", t) for t in FW.CORPUS] + fixws_cases("C20-fw", ctx.n(250, 6000), ctx.n(150, 4000), ctx.n(80, 1500)))
     FW.evaluate(ctx, "c20fw", "fix_whitespace on corpus and grammar texts", checks)
-    wcases = list(W.CORPUS) + [W.gen_case(env.rng("C20-wrap", i)) for i in range(ctx.n(700, 12000))]
+    wcases = list(W.CORPUS) + [W.gen_case(env.rng("C20-wrap", i)) for i in range(ctx.n(600, 12000))]
     wchecks = W.run_wrap(ctx, wcases)
     FW.evaluate(ctx, "c20wrap", "wrap on corpus and grammar comments x widths/offsets/indents", wchecks)
     rchecks = W.run_rst(ctx, [("ends with quote\"", 72, 4, None), ("a `b`", 72, 4, None), ("", 72, 0, None)] + rst_cases("C20-rst", ctx.n(200, 3000)))
@@ -112,6 +113,12 @@ def grammar_comments(r):
 
 def e2e_jobs(ctx):
     jobs = [("benign", dict(D.BENIGN), None)]
+    # where the comment sits in the source: every element kind documented only by a detached comment / only by a trailing one /
+    # by several (controls for the selection leading > trailing > detached); the words must arrive in the emitted docstrings
+    for name, comments in D.placements().items():
+        if ctx.tier == "quick" and name == "detached-only":
+            continue                        # corpus/C20/comment-detached-only.json is this very case and has already been queued
+        jobs.append(("placement:" + name, comments, None))
     for i in range(ctx.n(3, 40)):
         jobs.append(("grammar", grammar_comments(env.rng("C20-e2e-comments", i)), None))
     hz = []
@@ -122,9 +129,9 @@ def e2e_jobs(ctx):
     if ctx.tier == "quick":    # a spread: every class on service + message + one rotating target
         keep = []
         for k, (sig, tx, tgt) in enumerate(hz):
-            if texts_index(sig, tx) == 0 and tgt in ("service", "message", "method"):
+            if texts_index(sig, tx) == 0 and tgt in ("service", "message"):
                 keep.append((sig, tx, tgt))
-            elif texts_index(sig, tx) == 1 and tgt in ("service", "field"):
+            elif texts_index(sig, tx) == 1 and tgt in ("method",):
                 keep.append((sig, tx, tgt))
         hz = keep
     for sig, tx, tgt in hz:
@@ -224,7 +231,12 @@ def witnesses(ctx):
     ws = [c for c in cs if c["kind"] == "wrap"]
     checks = W.run_wrap(ctx, [(c["text"], c["width"], c["offset"], c["indent"]) for c in ws], kind="corpus")
     FW.evaluate(ctx, "c20corpus", "wrap on the former witnesses kept in corpus/C20", checks)
-    return [("corpus:" + c["corpus_file"], {**D.BENIGN, **c["comments"]}, next(iter(c["comments"].items()))) for c in cs if c["kind"] == "e2e"]
+    jobs = []
+    for c in cs:
+        if c["kind"] == "e2e":
+            tgt, tx = next(iter(c["comments"].items()))
+            jobs.append(("corpus:" + c["corpus_file"], {**D.BENIGN, **c["comments"]}, (tgt, tx) if isinstance(tx, str) else None))
+    return jobs
 
 
 def run(ctx):
